@@ -244,6 +244,9 @@ class BuiltinMixin(object):
       return [(st, VBool(False))]
     if isinstance(obj, (VStr, VBytes)) and nm == '__len__':
       return [(st, VBool(True))]
+    if isinstance(obj, VTuple) or (isinstance(obj, VRef) and obj.cls in ('list', 'tuple', 'dict', 'set')):
+      native_c = {'list': list, 'tuple': tuple, 'dict': dict, 'set': set}
+      return [(st, VBool(hasattr(tuple if isinstance(obj, VTuple) else native_c[obj.cls], nm)))]
     if isinstance(obj, VCallable):
       # opaque user object: whether it carries the attribute is a fixed, unknown fact about that object
       return [(st, VBool(z3.Function('has_attr_' + nm, z3.IntSort(), z3.BoolSort())(obj.t)))]
@@ -654,6 +657,15 @@ class BuiltinMixin(object):
     if isinstance(v, VCallable):
       return [(st, VInt(v.t))]
     return [(st, VInt(Val.c(self.to_val(st, v))))]
+
+  def b_ref_id(self, st, args, kwargs):
+    """spec: the identity of an object (an integer; 0 for None)."""
+    v = args[0]
+    if isinstance(v, VRef):
+      return [(st, VInt(v.t))]
+    if isinstance(v, VNone):
+      return [(st, VInt(z3.IntVal(0)))]
+    raise Unsupported('ref_id of %r' % (v,))
 
   def b_class_named(self, st, args, kwargs):
     """spec: the class object with this (unqualified or dotted-suffix) name, independent of the enclosing module's imports."""
